@@ -10,9 +10,18 @@
    handlers (global, per call in several options, designated to nodes and node paths).
    Observed: the multiset of (handler, timing code, run info) over the whole run, sorted.
 
+   It is compared with the canonical run of the heap-level model AND with the closed form
+   [graph_table] / [uexp_events] of Model/CallbacksSched.v (what Props/C10.v
+   [exactly_once_paired_units] states for every schedule).
+
+   CaseStream: one stream payload handed to n-1 handlers and the flow through the public
+   callbacks.OnStartWithStreamInput / OnEndWithStreamOutput; afterwards the harness performs a
+   script of recv / close actions on the n readers, in the given global order.  Observed: what
+   every reader received, and (pipe source) whether the source was closed.
+
    The model is evaluated at the heap level (slices, Go append) with a doubling growth
    policy; Proofs/Callbacks.v shows the result does not depend on the policy. *)
-From Eino Require Import Base.Util Base.GoSlice Model.Callbacks.
+From Eino Require Import Base.Util Base.GoSlice Model.Callbacks Model.CallbacksStream Model.CallbacksSched.
 
 Definition ev4 (e : event) : N * N * N * N :=
   match e with Ev u x t i => (u, x, timing_code t, i) end.
@@ -44,7 +53,13 @@ Inductive ccase : Type :=
              (obs : list (N * N * N * N)) (final : list (ukey * list handler))
 | CaseGraph (globals : list handler) (needs : list (handler * list N)) (opts : list copt)
             (is_stream : bool) (g : ukey) (ginf : info) (stages : list (list gnode))
-            (obs : list (N * N * N)).
+            (obs : list (N * N * N))
+| CaseStream (src : list N) (n : nat) (acts : list cact) (obs : list (list N)) (closed : option bool).
+
+(* the closed form: the events of all units of the table *)
+Definition table_events (w : world) (is_stream : bool) (g : ukey) (ginf : info) (opts : list copt)
+           (stages : list (list gnode)) : list (N * N * N) :=
+  sort_by n3_ltb (map ev3 (flat_map (uexp_events w) (graph_table is_stream g ginf opts stages))).
 
 Definition final_ok (st : state) (final : list (ukey * list handler)) : bool :=
   forallb (fun uf : ukey * list handler =>
@@ -60,7 +75,14 @@ Definition bad (c : ccase) : bool :=
       negb (negb (st_bad st) && list_eqb n4_eqb (map ev4 (st_log st)) obs && final_ok st final)
   | CaseGraph globals needs opts is_stream g ginf stages obs =>
       let st := run_script true (mk_world globals needs) (graph_ops is_stream g ginf opts stages) in
-      negb (negb (st_bad st) && list_eqb n3_eqb (sort_by n3_ltb (map ev3 (st_log st))) obs)
+      negb (negb (st_bad st) && list_eqb n3_eqb (sort_by n3_ltb (map ev3 (st_log st))) obs
+            && list_eqb n3_eqb (table_events (mk_world globals needs) is_stream g ginf opts stages) obs)
+  | CaseStream src n acts obs closed =>
+      negb (list_eqb (list_eqb N.eqb) (received_all src n acts) obs &&
+            match closed with
+            | None => true
+            | Some b => Bool.eqb (all_closed (run_acts (copy_n src n) acts)) b
+            end)
   end.
 
 Definition mismatches (cs : list ccase) : list nat := mismatches_from bad 0 cs.
